@@ -954,6 +954,19 @@ var allVals = []*pb.TypedValue{
 	gen.I(1), gen.S("x"), // a second object of an equal value
 }
 
+// valFamilies are groups of values that a sloppy equality could confuse: one
+// is a prefix / widening / other arm of the other. A world that draws a family
+// takes several of its members, so "changed" updates between near-equal values
+// occur (the feed must carry them; only a truly unchanged value may be withheld).
+var valFamilies = [][]*pb.TypedValue{
+	{gen.LL(), gen.LL(gen.S("a")), gen.LL(gen.S("a"), gen.S("b")), gen.LL(gen.S("a"), gen.S("b"), gen.S("c"))},
+	{gen.LL(gen.I(1)), gen.LL(gen.I(1), gen.I(2)), gen.LL(gen.I(2), gen.I(1))},
+	{gen.Bytes([]byte{1}), gen.Bytes([]byte{1, 2}), gen.Bytes(nil)},
+	{gen.I(1), gen.U(1), gen.D(1), gen.F(1), gen.S("1")},
+	{gen.S(""), gen.S("x"), gen.S("xx")},
+	{gen.LL(gen.LL(gen.S("a"))), gen.LL(gen.LL(gen.S("a"), gen.S("b"))), gen.LL(gen.S("a"))},
+}
+
 func (w *world) randEl() el {
 	switch x := w.rng.Intn(10); {
 	case x < 7:
@@ -1026,6 +1039,13 @@ func newWorld(rng *rand.Rand, c cfg, st stats) *world {
 	nv := 3 + rng.Intn(2)
 	for i := 0; i < nv; i++ {
 		w.vals = append(w.vals, allVals[rng.Intn(len(allVals))])
+	}
+	if rng.Intn(3) == 0 {
+		fam := valFamilies[rng.Intn(len(valFamilies))]
+		w.vals = w.vals[:1]
+		for _, i := range rng.Perm(len(fam))[:2+rng.Intn(len(fam)-1)] {
+			w.vals = append(w.vals, fam[i])
+		}
 	}
 	return w
 }
